@@ -106,6 +106,9 @@ static void build_items()
     { Item it = one("f:exact-in-parentheses", "0.000061", pf::Fl(0x0.1p-10f), true); it.tok.push_back("(0x0.1p-10)"); it.gap.push_back('w'); I.push_back(it); }
     { Item it = one("f:exact-in-parentheses", "-1.50", pf::Fl(-1.5f)); it.tok.push_back("(-0x1.8p+0)"); it.gap.push_back('w'); I.push_back(it); }
     { Item it = one("d:exact-in-parentheses", "0.10d", pf::D(0x1.999999999999ap-4), true); it.tok.push_back("(0x1.999999999999ap-4)"); it.gap.push_back('w'); I.push_back(it); }
+    // the parenthesised exact value split into tokens, so that white space deviations also fall directly behind '(' and before ')'
+    { Item it = one("f:exact-in-parentheses", "0.50", pf::Fl(0.5f)); it.tok.push_back("("); it.gap.push_back('w'); it.tok.push_back("0x1p-1"); it.gap.push_back('o'); it.tok.push_back(")"); it.gap.push_back('o'); I.push_back(it); }
+    { Item it = one("d:exact-in-parentheses", "0.25d", pf::D(0.25)); it.tok.push_back("("); it.gap.push_back('w'); it.tok.push_back("0x1p-2"); it.gap.push_back('o'); it.tok.push_back(")"); it.gap.push_back('o'); I.push_back(it); }
     // --- characters
     I.push_back(one("c:plain", "'a'", pf::C('a'), true));
     I.push_back(one("c:plain", "'#'", pf::C('#')));
@@ -131,6 +134,13 @@ static void build_items()
     I.push_back(one("S:identifier-like-keyword", "truely", pf::Sym("truely")));
     I.push_back(one("S:identifier-like-keyword", "nowhere", pf::Sym("nowhere"), true));
     I.push_back(one("S:identifier-like-keyword", "MIDINOTE", pf::Sym("MIDINOTE")));
+    // identifiers that begin with the first letter of a keyword (t f n i M B) and contain digits
+    I.push_back(one("S:identifier-with-digits", "note2", pf::Sym("note2")));
+    I.push_back(one("S:identifier-with-digits", "t0", pf::Sym("t0")));
+    I.push_back(one("S:identifier-with-digits", "i2c_bus", pf::Sym("i2c_bus"), true));
+    I.push_back(one("S:identifier-with-digits", "B52", pf::Sym("B52")));
+    I.push_back(one("S:identifier-with-digits", "Midi_1x", pf::Sym("Midi_1x")));
+    I.push_back(one("S:identifier-with-digits", "filter_1x", pf::Sym("filter_1x")));
     I.push_back(one("S:quoted", "\"A more \\\"complicated\\\" identifier!\"S", pf::Sym("A more \"complicated\" identifier!"), true));
     // --- values without payload, time keywords
     I.push_back(one("kw:true", "true", pf::mk('T'), true));
